@@ -2680,7 +2680,7 @@ impl Monitors {
                     .blocked
                     .iter()
                     .filter(|(rq_id, rv)| {
-                        Self::rq_of(snap, *rq_id, *rv).is_some_and(|rq| {
+                        Self::rq_of(&snap, *rq_id, *rv).is_some_and(|rq| {
                             let covers = rq.entries().iter().all(|e| {
                                 let total = w
                                     .total
